@@ -74,36 +74,28 @@ Theorem C05_id_is_counter_mod_2_32 : forall cfg evs k i,
 Proof. exact ids_wrap_statement. Qed.
 Print Assumptions C05_id_is_counter_mod_2_32.
 
-(* ---- what the clause "a frame is its header plus f_len payload bytes" does NOT cover ----
-   [chunks_of] gives a CloseConnection frame no payload Write: the write loop parks right after the
-   header of a CloseConnection (reader.go:831-836), before the payload is copied. So a caller that
-   passes a non-empty payload to SendMessage(MsgCloseConnection, ...) makes the client write a
-   header announcing bytes that never follow. Witness: *)
-Definition cfg_today : config := mkConfig false false 1 true [] false.
+(* every complete frame is its header Write followed — iff the payload is not empty — by its
+   payload Write; this includes CloseConnection frames (the write loop parks only after the whole
+   frame, reader.go after commit 1713ba3) *)
+Theorem C05_chunks_of_frame : forall o,
+  chunks_of o = if f_len (o_frame o) =? 0 then [CHdr o] else [CHdr o; CPay o].
+Proof. reflexivity. Qed.
+Print Assumptions C05_chunks_of_frame.
+
+(* History: before 1713ba3 the write loop parked right after the *header* of a CloseConnection, so
+   SendMessage(MsgCloseConnection, non-empty payload) left a header announcing bytes that never
+   followed. This check found it (signature closeconnection-payload-dropped, notes/C05.md); the
+   scenario stays in the check, judged on Go's bytes. The model follows the fixed code: *)
+Definition cfg_today : config := mkConfig true true 1 true [] false.
 Definition ren_ok : frame := mkFrame 1 T_ReaderEventNotification 0 22 9 (IConn 0).
 Definition close_with_payload : list event :=
   [ConnStart; ConnFirst ren_ok HBNone; ConnReady;
-   Submit 1 (mkReq T_CloseConnection 5 77 0 1 true true); PassGate 1; WDefault; WAccept 1; WWriteHdr].
+   Submit 1 (mkReq T_CloseConnection 5 77 0 1 true true); PassGate 1; WDefault; WAccept 1; WWriteHdr; WWritePay].
 
-Theorem C05_close_connection_payload_refuted :
-  exists evs o, In o (out (run cfg_today evs)) /\
-    wire_len_field (o_frame o) = 15 /\
-    wire (run cfg_today evs) = [CHdr o] /\ writer (run cfg_today evs) = WParked.
-Proof.
-  exists close_with_payload. eexists. vm_compute. repeat split; [left; reflexivity | reflexivity..].
-Qed.
-Print Assumptions C05_close_connection_payload_refuted.
-
-(* for every other frame the Writes are the header, then — iff the payload is not empty — the payload *)
-Theorem C05_chunks_of_ordinary_frame : forall o,
-  f_typ (o_frame o) <> T_CloseConnection \/ f_len (o_frame o) = 0 ->
-  chunks_of o = if f_len (o_frame o) =? 0 then [CHdr o] else [CHdr o; CPay o].
-Proof.
-  intros o [H|H]; unfold chunks_of.
-  - destruct (f_typ (o_frame o) =? T_CloseConnection) eqn:E; [apply N.eqb_eq in E; contradiction|reflexivity].
-  - rewrite H. rewrite orb_true_r. reflexivity.
-Qed.
-Print Assumptions C05_chunks_of_ordinary_frame.
+Example C05_close_connection_with_payload_is_whole :
+  let s := run cfg_today close_with_payload in
+  exists o, out s = [o] /\ wire s = [CHdr o; CPay o] /\ wire_len_field (o_frame o) = 15 /\ writer s = WParked.
+Proof. eexists. vm_compute. repeat split; reflexivity. Qed.
 
 (* ---- non-vacuity: two callers and an acknowledgement interleaved, a cancellation of a queued
    caller, header-only and payload frames ---- *)
